@@ -8,6 +8,7 @@ ASSUMPTIONS = [
     "failure kinds: the adapter raises after delivering any prefix of k rules; a delivered grouping rule is shorter than the role definition (raises while building role links); failures while ordering rules (a priority that cannot be compared, a cycle in the subject hierarchy) are not in the Lean model: they are judged on the implementation only (state before = state after)",
     "the state before the reload is coherent (C04's invariant): the rollback rebuilds links from the old policy",
     "conditional role managers are outside the model (rollback does not rebuild them: recorded observation F19)",
+    "file adapters (FileAdapter / FilteredFileAdapter; file gone, or a grouping line shorter than the role definition in the file) are judged on the implementation only: policy, queries and is_filtered() before = after; F26b (open) is the is_filtered() flip when the enforcer rejects a completely read file",
 ]
 TRUSTED_EXTRA = []
 
@@ -168,25 +169,113 @@ def ordering_failure_stream(ctx, res, deep):
                 )
 
 
+def _file_case(args):
+    """Enforcer on a policy FILE (FileAdapter / FilteredFileAdapter, after a full or a filtered load): load_policy fails
+    because the file has gone, or because the file now holds a grouping line shorter than the role definition; everything
+    observable (policy, decisions, role queries, is_filtered) must be as before the call"""
+    import os
+    import shutil
+    import tempfile
+
+    shape, adapter, pre, failure = args
+    casbin = common.use_repo()
+    from casbin.persist.adapters import FileAdapter, FilteredFileAdapter
+    from casbin.persist.adapters.filtered_file_adapter import Filter
+
+    P, G, G2, R = ec.universe(shape)
+    d = tempfile.mkdtemp(prefix="c11f_")
+    try:
+        path = os.path.join(d, "policy.csv")
+        good = "\n".join(", ".join(["p"] + r) for r in P) + "\n" + "\n".join(", ".join(["g"] + r) for r in G) + "\n"
+        with open(path, "w") as f:
+            f.write(good)
+        e = casbin.Enforcer(casbin.Enforcer.new_model(text=ec.TEXT[shape]), (FilteredFileAdapter if adapter == "filtered" else FileAdapter)(path))
+        e.enable_auto_save(False)
+        if adapter == "filtered" and pre[0] in ("full", "remove"):
+            e.load_policy()  # an enforcer built on a filtered adapter starts without a policy (is_filtered() = True)
+        if pre[0] == "loadf":
+            flt = Filter()
+            flt.P, flt.G = list(pre[1]), list(pre[2])
+            e.load_filtered_policy(flt)
+        elif pre[0] == "remove":
+            e.remove_grouping_policy(*G[0])
+        cfg = ec.Config(shape, adapter=False)
+        qs = ec.query_set(cfg)
+
+        def observe():
+            return {"p": [list(r) for r in e.get_policy()], "g": [list(r) for r in e.get_grouping_policy()], "answers": [ec.q_impl(e, q) for q in qs], "is_filtered": bool(e.is_filtered())}
+
+        before = observe()
+        if failure == "gone":
+            os.replace(path, path + ".away")
+        else:
+            lines = good.splitlines()
+            k = {"shortg-first": len(P), "shortg-last": len(lines), "shortg-only": 0}[failure]
+            short = ", ".join(["g"] + G[0][:-1])
+            with open(path, "w") as f:
+                f.write("\n".join(([short] if failure == "shortg-only" else lines[:k] + [short] + lines[k:])) + "\n")
+        raised = None
+        try:
+            e.load_policy()
+        except Exception as ex:  # noqa
+            raised = f"{type(ex).__name__}: {str(ex)[:60]}"
+        return raised, before, observe()
+    finally:
+        shutil.rmtree(d, ignore_errors=True)
+
+
+def file_failure_stream(ctx, res, deep):
+    jobs = []
+    for shape in ("rbac", "dom"):
+        P, G, G2, R = ec.universe(shape)
+        for failure in ("gone", "shortg-first", "shortg-last", "shortg-only"):
+            for pre in (("full",), ("remove",)):
+                jobs.append((shape, "file", pre, failure))
+                jobs.append((shape, "filtered", pre, failure))
+            jobs.append((shape, "filtered", ("fresh",), failure))
+            for pre in (("loadf", [P[0][0]], []), ("loadf", [], [G[0][0]]), ("loadf", [P[0][0]], [G[0][0]])):
+                jobs.append((shape, "filtered", pre, failure))
+    for job in jobs:
+        shape, adapter, pre, failure = job
+        raised, before, after = _file_case(job)
+        res.evaluations += 1
+        res.count("stream:file-failure:" + failure + (":raised" if raised else ":loaded"))
+        res.nontrivial.add(hash(("file", repr(job))))
+        if raised is None:
+            res.violation({"signature": f"C11:file:{adapter}:{failure}:not-raised", "stream": "file-failure", "job": list(job), "what": f"{shape}, {adapter} adapter, {pre}: load_policy of an unreadable / unusable file ({failure}) did not raise", "expected": "raises", "observed": "returned"})
+            continue
+        if before != after:
+            diff = next(k for k in before if before[k] != after[k])
+            kind = "roleDefinition" if failure.startswith("shortg") else failure
+            res.violation({"signature": f"C11:file:{adapter}:{kind}:{diff}", "stream": "file-failure", "job": [shape, adapter, list(pre), failure],
+                           "what": f"{shape} model, {adapter} file adapter, state {list(pre)}: load_policy raised ({raised}; failure {failure}) but {diff} changed from {before[diff]} to {after[diff]}",
+                           "expected": before[diff], "observed": after[diff]})
+
+
 def run(ctx):
     res = common.Result()
     stages = [False] if not ctx["deep"] else ([True] if ctx["proof_ok"] else [False, True])
     for deep in stages:
         ec.run_configs(res, gen(ctx, deep), judge_factory(), fresh_oracle=True)
         ordering_failure_stream(ctx, res, deep)
+        file_failure_stream(ctx, res, deep)
         if res.spec_violations:
             break
     res.rule = (
         "RBAC and domain models, Enforcer and AsyncEnforcer, 3 initial policies x 5 adapter stores (two containing a grouping rule shorter than the "
         "role definition at different positions) x EVERY failure point k = 0..n of the delivering adapter (and no failure), preceded by 0-2 and "
         "followed by 3 random management calls; after every call policy and ~40 queries are compared with the state before (failed reload), "
-        "with a fresh enforcer (successful reload, later use) and with the Lean model; non-trivial/distinct = (configuration, history)"
+        "with a fresh enforcer (successful reload, later use) and with the Lean model; ordering-failure stream and file-failure stream (file gone / short grouping line, FileAdapter and FilteredFileAdapter in 6 states) judged before = after incl. is_filtered(); non-trivial/distinct = (configuration, history)"
     )
     res.exhaustive = True
     return res
 
 
 def replay(obj):
+    if obj.get("stream") == "file-failure":
+        j = obj["job"]
+        raised, before, after = _file_case((j[0], j[1], tuple(j[2]), j[3]))
+        return raised is None or before != after
     if obj.get("kind_of_case") == "ordering-failure":
         import policy_corr as pc
 
